@@ -879,6 +879,7 @@ class TestResult(unittest.TestResult):
         self._stderr_buffer = None
         self._original_stdout = sys.stdout
         self._original_stderr = sys.stderr
+        self._std_streams_buffered = False
 
     def testSetUp(self):
         """A layer may define a setup method to be called before each
@@ -923,14 +924,19 @@ class TestResult(unittest.TestResult):
                 self._stderr_buffer = self._makeBufferedStdStream()
             sys.stdout = self._stdout_buffer
             sys.stderr = self._stderr_buffer
+            self._std_streams_buffered = True
 
     def _restoreStdStreams(self):
         """Restore the buffered standard streams and return any contents."""
-        if self.options.buffer:
+        if self.options.buffer and self._std_streams_buffered:
+            # A test may produce several result events (e.g. an error in
+            # the test body and another one in ``tearDown``); the streams
+            # are only buffered until the first of them.
             stdout = sys.stdout.getvalue()
             stderr = sys.stderr.getvalue()
             sys.stdout = self._original_stdout
             sys.stderr = self._original_stderr
+            self._std_streams_buffered = False
             self._stdout_buffer.seek(0)
             self._stdout_buffer.truncate(0)
             self._stderr_buffer.seek(0)
